@@ -35,7 +35,14 @@ pub enum Val {
 impl std::hash::Hash for Val {
     fn hash<H: std::hash::Hasher>(&self, h: &mut H) {
         match self {
-            Val::Int(z) => h.write_u8(z.rem_euclid(16) as u8),
+            Val::Int(z) => {
+                if *z == SLOW_KEY {
+                    // a key that is slow to hash: the partition holding it finishes its local
+                    // phase AFTER later partitions (completion order != partition order)
+                    std::thread::sleep(Duration::from_millis(2));
+                }
+                h.write_u8(z.rem_euclid(16) as u8)
+            }
             Val::Pair(a, b) => {
                 h.write_u8(101);
                 a.hash(h);
@@ -2836,6 +2843,37 @@ pub fn join_side_barrier_cases(rng: &mut SplitMix64, full: bool) -> Vec<(Src, Ve
                     out.push((Src::Vec(Shape::KV, ldata), steps, parts));
                 }
             }
+        }
+    }
+    out
+}
+
+/// hashing this key takes 2 ms (see `impl Hash for Val`)
+pub const SLOW_KEY: i64 = 1_000_003;
+/// The FIRST partition is slow (it holds the slow key), every other key spans all partitions:
+/// with more than one worker thread the later partitions finish their local phase first, so any
+/// barrier that gathers per-partition intermediates in completion order instead of partition
+/// order permutes the values inside the groups.  (source, steps, partitions)
+pub fn slow_head_cases(full: bool) -> Vec<(Src, Vec<Step>, usize)> {
+    let mut out = vec![];
+    for (n, parts) in [(12usize, 2usize), (12, 3), (18, 4), (24, 6), (40, 8)] {
+        if !full && (n == 18 || n == 40) {
+            continue;
+        }
+        let mut rows = vec![pair(Val::Int(SLOW_KEY), Val::Int(0))];
+        for i in 1..n as i64 {
+            rows.push(pair(Val::Int(1 + i % 2), Val::Int(i)));
+        }
+        let progs: Vec<Vec<Step>> = vec![
+            vec![Step::GroupByKey],
+            vec![Step::MapValues(EFun::Add(1)), Step::GroupByKey, Step::GroupsToList],
+            vec![Step::CombineValues(Cid::TopK(3))],
+            vec![Step::GroupByKey, Step::Filter(PFun::True), Step::CombineValuesLifted(Cid::Sum)],
+            vec![Step::Join(JoinKind::Inner, vec![Step::GroupByKey, Step::GroupsToList],
+                            rows.iter().rev().cloned().collect())],
+        ];
+        for steps in progs {
+            out.push((Src::Vec(Shape::KV, rows.clone()), steps, parts));
         }
     }
     out
